@@ -275,9 +275,13 @@ func (c *Ctx) rulesC01(a *coreAnchors, la *LockAnalysis) {
 		fk := funcKey(s.Fn)
 		cnt[fk]++
 		key := fmt.Sprintf("call from %s%s", fk, nth(cnt[fk]-1))
-		switch s.Fn {
+		hostFn := s.Fn
+		if s.Fn != a.emitEvents && s.Fn != a.recoverFinal && c.hostedBy(topFunc(s.Fn), a.emitEvents) {
+			hostFn = a.emitEvents // a private single-caller helper emitEvents was split into
+		}
+		switch hostFn {
 		case a.emitEvents:
-			c.requireGuards("C01.g", key, s.Instr, a.notCheck(), a.notCanceled())
+			c.requireGuardsHosted("C01.g", key, s.Instr, a.emitEvents, a.notCheck(), a.notCanceled())
 		case a.recoverFinal:
 			c.ok("C01.g", key, s.Instr.Pos(), "fault-recovery path (excluded by the property: 'without handler faults')")
 		default:
@@ -324,11 +328,11 @@ func (c *Ctx) rulesC03(a *coreAnchors, la *LockAnalysis) {
 	c.rule("C03.chk", "CanAdd/CanRemove build their mutation with IsCheck: true and reach the queue only through PrependMut; queueTick/queueTicksPending are written only by queueMutation/processQueue/the deadline flush")
 
 	// C03.g
-	for i, s := range c.callsTo(a.emitEvents, a.setActive) {
-		c.requireGuards("C03.g", "emitEvents>setActiveStates"+nth(i), s.Instr, a.notCheck(), a.notCanceled())
+	for i, s := range c.innerSites(a.emitEvents, funcKey(a.setActive)) {
+		c.requireGuardsHosted("C03.g", "emitEvents>setActiveStates"+nth(i), s, a.emitEvents, a.notCheck(), a.notCanceled())
 	}
-	for i, s := range c.callsTo(a.emitEvents, a.emitFinal) {
-		c.requireGuards("C03.g", "emitEvents>emitFinalEvents"+nth(i), s.Instr, a.notCheck(), a.notCanceled())
+	for i, s := range c.innerSites(a.emitEvents, funcKey(a.emitFinal)) {
+		c.requireGuardsHosted("C03.g", "emitEvents>emitFinalEvents"+nth(i), s, a.emitEvents, a.notCheck(), a.notCanceled())
 	}
 	c.floor("C03.g", 4)
 
